@@ -12,7 +12,9 @@ RULE = ('all conditional trees of depth <= d: node = test from a menu of 24 bool
         '\\or arms and every selector in -1..k+1 (literal or register), each with/without \\else, a child conditional in at '
         'most one branch position (taken or untaken); at d = 3 (thorough) the root and both lower levels range over a '
         'representative sub-menu (12 boolean tests incl. the switch, \\ifcase with 2 arms, all selectors); x placement (top level, group, macro body, macro argument) x switch '
-        'setters in branches on/off. Non-trivial: at least one branch is skipped and one is taken; distinct = distinct '
+        'setters in branches on/off; plus every ordered pair of sibling conditionals over the sub-menu, and a list of explicit '
+        'programs (empty branches, a definition between two \\ifdefined/\\ifcsname tests, \\ifx on a macro parameter followed by '
+        'register operands, \\newif inside a branch). Non-trivial: at least one branch is skipped and one is taken; distinct = distinct '
         '(tree, placement, setter flag); outcomes = distinct (text, side-effect mask, switch state)')
 ASSUMPTIONS = [
     'oracle: AST evaluation with TeX rules (truth of each test computed from the operands the generator chose)',
@@ -38,6 +40,8 @@ BOOL = [
     (r'\ifx aa', True), (r'\ifx ab', False), (r'\ifx\zzma\zzmb ', True), (r'\ifx\zzma\zzmc ', False),
     (r'\ifdefined\zzma ', True), (r'\ifdefined\zzundefd ', False),
     (r'\iffizz ', 'SW'),
+    # operands whose digits are continued by a macro (TeX expands while it scans a number)
+    (r'\ifnum 5<1\zzn\relax ', True), (r'\ifnum 1\zzn\zzn>100\relax ', True), (r'\ifdim 1.\zzn pt>1.1pt\relax ', True),
 ]
 # representative subset used as the *outer* test at the deepest level
 BOOL_SMALL = [0, 1, 3, 8, 12, 14, 18, 23, 27, 28, 31, 32]
@@ -160,6 +164,8 @@ class Printer(object):
         return s
 
     def cond(self, node):
+        if node[0] == 'q':          # two sibling conditionals, one after the other
+            return self.cond(node[1]) + self.cond(node[2])
         if node[0] == 'b':
             _, ti, has_else, pos, child = node
             s = BOOL[ti][0]
@@ -218,6 +224,10 @@ class Evaluator(object):
         self.text.append(marker(2 * i + 1))
 
     def run_cond(self, node):
+        if node[0] == 'q':
+            self.run_cond(node[1])
+            self.run_cond(node[2])
+            return
         if node[0] == 'b':
             _, ti, has_else, pos, child = node
             truth = BOOL[ti][1]
@@ -311,9 +321,15 @@ def replay(case):
 def run_block(block):
     if block[0] == 'extra':
         return run_block_extra(block)
-    depth, outer, wrapper, setters, sw0, small = block
+    if block[0] == 'pair':
+        _, i, wrapper, setters, sw0 = block
+        small_ = leaves_small()
+        nodes = [['q', small_[i], b] for b in small_]
+        depth = 1
+    else:
+        depth, outer, wrapper, setters, sw0, small = block
+        nodes = nodes_for_outer(depth, outer, inner_small=(small == 'inner'))
     rep = core.Report()
-    nodes = nodes_for_outer(depth, outer, inner_small=(small == 'inner'))
     for node in nodes:
         if depth > 1 and node[-1] is None and _depth(node) < depth:
             pass    # shallower trees are part of the same enumeration (<= depth)
@@ -348,6 +364,35 @@ EXTRA = [   # (program after the preamble, expected text) -- switches declared i
     (r'\ifdefined\ifzzq \else \newif\ifzzq \ifzzq A\else B\fi \fi E', 'BE'),
     (r'\ifnum 1<2\relax \newif\ifzzq \ifzzq A\fi C\else D\fi ', 'C'),
 ]
+# empty branches: a selected branch without any token must not fall through to another branch
+for _t, _v in ((r'\iftrue ', True), (r'\iffalse ', False), (r'\ifnum 1<2\relax ', True), (r'\ifx ab', False), (r'\ifodd 3\relax ', True),
+               (r'\ifdefined\zzma ', True), (r'\ifdim 1pt>2pt\relax ', False)):
+    EXTRA.append((_t + r'\else B\fi E', 'E' if _v else 'BE'))
+    EXTRA.append((_t + r'A\else \fi E', 'AE' if _v else 'E'))
+    EXTRA.append((_t + r'\else \stepcounter{zzc}\fi \arabic{zzc}', '3' if _v else '4'))
+    EXTRA.append((_t + r'\fi E', 'E'))
+for _sel in range(-1, 5):
+    EXTRA.append((r'\ifcase %d\relax a\or \or c\else d\fi E' % _sel, {0: 'a', 1: '', 2: 'c'}.get(_sel, 'd') + 'E'))
+    EXTRA.append((r'\ifcase %d\relax \or b\or \else \fi E' % _sel, {1: 'b'}.get(_sel, '') + 'E'))
+# a test, a definition made by the selected branch (or between two tests), the same test again at the same level
+for _d in (r'\gdef\zzqq{X}', r'\def\zzqq{X}', r'\newcommand\zzqq{X}', r'\let\zzqq=\zzma ', r'\newcount\zzqq ', r'\newif\ifzzqq ',
+           r'\expandafter\gdef\csname zzqq\endcsname{X}'):
+    _n = r'\ifzzqq ' if 'newif' in _d else r'\zzqq '
+    _name = 'ifzzqq' if 'newif' in _d else 'zzqq'
+    EXTRA.append((r'\ifdefined\%s A\else %sB\fi \ifdefined\%s C\else D\fi ' % (_name, _d, _name), 'BC'))
+    EXTRA.append((r'\ifdefined\%s A\else B\fi %s\ifdefined\%s C\else D\fi ' % (_name, _d, _name), 'BC'))
+    EXTRA.append((r'{\ifdefined\%s A\else B\fi %s\ifdefined\%s C\else D\fi }' % (_name, _d, _name), 'BC'))
+    EXTRA.append((r'\ifcsname %s\endcsname A\else B\fi %s\ifcsname %s\endcsname C\else D\fi ' % (_name, _d, _name), 'BC'))
+    if 'gdef' in _d or 'new' in _d:
+        EXTRA.append((r'\ifdefined\%s A\else B\fi {%s}\ifdefined\%s C\else D\fi ' % (_name, _d, _name), 'BC'))
+    else:
+        EXTRA.append((r'\ifdefined\%s A\else B\fi {%s}\ifdefined\%s C\else D\fi ' % (_name, _d, _name), 'BD'))
+# a conditional on a macro parameter, then every kind of register operand: the first must leave nothing behind
+for _call, _r in ((r'\zzw a', 'Y'), (r'\zzw{a}', 'Y'), (r'\zzw b', 'N'), (r'\zzw{b}', 'N'), (r'\zzw\zzma ', 'N')):
+    for _t, _x in ((r'\ifodd\zzr A\else B\fi ', 'B'), (r'\ifnum\zzr=2\relax A\else B\fi ', 'A'), (r'\ifnum 1<\zzr A\else B\fi ', 'A'),
+                   (r'\ifcase\zzr a\or b\or c\else d\fi ', 'c'), (r'\ifdim\zzd<4pt\relax A\else B\fi ', 'A'),
+                   (r'\ifdim 2\zzd=6pt\relax A\else B\fi ', 'A')):
+        EXTRA.append((r'\def\zzw#1{\ifx#1a Y\else N\fi }' + _call + _t + r'\ifnum\zzr=2\relax r\else R\fi \ifdim\zzd=3pt\relax d\else D\fi ', _r + _x + 'rd'))
 
 
 def run_block_extra(block):
@@ -357,7 +402,7 @@ def run_block_extra(block):
         obs = observe(src)
         want = 'qbeg' + exp + 'qend'
         rep.case(key=('extra', prog), nontrivial=True, outcome=obs.get('text'))
-        rep.count('newif_in_branch')
+        rep.count('extra_programs')
         if obs.get('text') != want or obs.get('depth') != 1:
             rep.violation({'extra': prog, 'expected_text': exp}, want, obs, 'program: ' + src)
     return rep.close_block()
@@ -384,6 +429,10 @@ def run(tier, seed, rep):
         for o in outers:
             blocks.append((depth, o, w, s, sw0, small))
     blocks.append(('extra',))
+    # every ordered pair of sibling conditionals over the representative menu: the first must leave nothing behind
+    for i in range(len(leaves_small())):
+        for w, st, sw0 in ((('top', 1, 0),) if quick else (('top', 1, 0), ('body', 0, 1), ('arg', 1, 1), ('group', 0, 0))):
+            blocks.append(('pair', i, w, st, sw0))
     blocks = core.rotate(blocks, seed)
     core.merge_all(run_block, blocks, rep)
     return {'exhaustive': True,
